@@ -140,15 +140,19 @@ def glue (op : String) (args : List String) : Option String :=
           let payload := Model.Keys.wifPayload secret c
           let pub := Model.Keys.pubOfSecret secret c
           let rt := match Model.Keys.wifParse ch.secretKey ch.secretKey payload with
-            | .ok (sec, c') => s!"{toHex sec},{bit c'},{toHex (Model.Keys.pubOfSecret sec c')}"
+            | .ok (sec, c') =>
+                let pub' := Model.Keys.pubOfSecret sec c'
+                s!"{toHex sec},{bit (Model.Keys.isCompressed pub')},{toHex pub'}"
             | .error e => "err:" ++ e.family
-          s!"pub={toHex pub} ver={ch.secretKey} payload={toHex payload} rt={rt}"
+          s!"pub={toHex pub} ver={ch.secretKey} payload={toHex payload} comp={bit (Model.Keys.isCompressed pub)} valid={bit (Model.Keys.isFullyValid pub)} rt={rt}"
       | _, _, _ => badArgs
   | "c13.wifparse", [chain, ver, payload] => some <|
       match Spec.chainByName? chain, parseNat? ver, parseHex? payload with
       | some ch, some ver, some payload =>
           (match Model.Keys.wifParse ch.secretKey ver payload with
-           | .ok (sec, c) => s!"{toHex sec},{bit c},{toHex (Model.Keys.pubOfSecret sec c)}"
+           | .ok (sec, c) =>
+               let pub := Model.Keys.pubOfSecret sec c
+               s!"{toHex sec},{bit (Model.Keys.isCompressed pub)},{toHex pub}"
            | .error e => "err:" ++ e.family)
       | _, _, _ => badArgs
   | "c13.signcheck", [secret, _c, digest, sig, raw] => some <|
@@ -182,8 +186,8 @@ def glue (op : String) (args : List String) : Option String :=
       | none => badArgs
   | "c13.fullyvalid", [pk] => some <|
       match parseHex? pk with
-      | some pk => bit (Secp256k1.decode pk).isSome
-      | none => badArgs
+      | some pk => bit (Model.Keys.isFullyValid pk)
+      | none => if pk == "-" then bit (Model.Keys.isFullyValid []) else badArgs
   | _, _ => none
 
 def handle (op : String) (args : List String) : Option String :=
